@@ -6,6 +6,9 @@
 //   1 id limit               connect a callback
 //   2 kind awaited v         call the collector (kind 0 args, 1 rvalue, 2 lvalue reference; awaited: co_await the result)
 //   3                        copy a strong handle        4  drop a strong handle       5  co_await pause()
+//   6 kind v                 call the collector and keep the returned suspend point     7  destroy the oldest kept one
+//   8                        co_await the oldest kept suspend point
+//   9 id limit pause retry keep   (first op only) listener awaiting signal<T>::hook_up(fn); fn keeps / drops the collector
 // observation: status ret news deletes {event-kind id value}*
 #define VH_DEFINE_NEW
 #include "common.h"
@@ -69,14 +72,16 @@ struct Ctx {
     std::optional<sig_t> dead;      // moved-from signal object (no state)
     typename sig_t::emitter root;   // weak; keeps the control block so that no op window sees it freed
     std::vector<lco> listeners;
+    std::deque<suspend_point<void>> held;   // suspend points the driver keeps
+    bool first = true;                      // no op executed yet
     std::set<long> ids;
     Log log;
     Val ext{0};
     bool coro = false;
 };
 
-template <typename T>
-static lco listener(Ctx<T> *c, long id, long limit, bool pause, long retry, typename signal<T>::emitter e) {
+template <typename T, typename E>
+static lco listener(Ctx<T> *c, long id, long limit, bool pause, long retry, E e) {
     long cnt = 0;
     for (;;) {
         try {
@@ -162,6 +167,13 @@ static bool valid(Ctx<T> &c, const std::vector<long> &op) {
         case 3: return op.size() == 1 && !c.handles.empty();
         case 4: return op.size() == 1 && !c.handles.empty();
         case 5: return op.size() == 1 && c.coro;
+        case 6:
+            return op.size() == 3 && in(0, 2, op[1]) && in(-100000, 100000, op[2]) && !c.handles.empty() &&
+                   !(std::is_void_v<T> && op[1] != 0);
+        case 7: return op.size() == 1 && !c.held.empty();
+        case 8: return op.size() == 1 && c.coro && !c.held.empty();
+        case 9:
+            return c.first && op.size() == 6 && in(0, 63, op[1]) && in(0, 9, op[2]) && in(0, 1, op[3]) && in(0, 3, op[4]) && in(0, 1, op[5]);
         default: return false;
     }
 }
@@ -189,7 +201,7 @@ static void exec_plain(Ctx<T> &c, const std::vector<long> &op) {
             c.listeners.reserve(c.listeners.size() + 1);
             vh::t_count = true;
             vh::alloc_mark m;
-            lco l = listener<T>(&c, op[1], op[2], op[3] == 1, op[4], c.root);
+            lco l = listener<T, typename signal<T>::emitter>(&c, op[1], op[2], op[3] == 1, op[4], c.root);
             vh::t_count = false;
             c.listeners.push_back(l);
             vh::t_count = true;
@@ -236,6 +248,61 @@ static void exec_plain(Ctx<T> &c, const std::vector<long> &op) {
             emit_line(c, 0, 0, m);
             break;
         }
+        case 6: {
+            vh::alloc_mark m;
+            suspend_point<void> sp = call_collector(c, op[1], op[2]);
+            long n = (long)sp.size();
+            vh::t_count = false;
+            c.held.emplace_back(std::move(sp));    // kept: nothing is resumed now
+            vh::t_count = true;
+            emit_line(c, 0, n, m);
+            break;
+        }
+        case 7: {
+            vh::t_count = false;
+            suspend_point<void> sp(std::move(c.held.front()));
+            c.held.pop_front();
+            vh::t_count = true;
+            vh::alloc_mark m;
+            sp.clear();                            // what its destructor does
+            emit_line(c, 0, 0, m);
+            break;
+        }
+        case 9: {
+            // the pre-made state is not used: the hook-up emitter creates the state on its first await
+            vh::t_count = false;
+            c.handles.clear();
+            c.listeners.reserve(c.listeners.size() + 1);
+            vh::t_count = true;
+            c.ids.insert(op[1]);
+            bool keep = op[5] == 1;
+            Ctx<T> *cp = &c;
+            auto reg = [cp, keep](typename signal<T>::collector col) {
+                bool saved = vh::t_count;
+                vh::t_count = false;
+                cp->root = signal<T>(col).get_emitter();
+                if (keep) cp->handles.push_back(std::move(col));
+                vh::t_count = saved;
+            };
+            vh::alloc_mark m;
+            long base_new = 0, base_del = 0;
+            {
+                // the state itself (make_shared) is allocated inside the first await: not a callback object
+                auto e = signal<T>::hook_up(std::move(reg));
+                long n0 = vh::g_news.load() - vh::g_news_arr.load();
+                lco l = listener<T, decltype(e)>(&c, op[1], op[2], op[3] == 1, op[4], std::move(e));
+                base_new = 1;   // make_shared<state>
+                (void)n0;
+                vh::t_count = false;
+                c.listeners.push_back(l);
+                vh::t_count = true;
+            }
+            std::vector<long> v{0, 0, m.scalar_news() - base_new, m.scalar_dels() - base_del};
+            for (long x : c.log.ev) v.push_back(x);
+            c.log.ev.clear();
+            vh::print_obs(v);
+            break;
+        }
     }
 }
 
@@ -243,7 +310,8 @@ template <typename T>
 static dco driver(Ctx<T> &c, const vh::Case &cs) {
     for (auto &op : cs.ops) {
         fresh_queue();
-        if (!valid(c, op)) { reject(c); continue; }
+        if (!valid(c, op)) { reject(c); c.first = false; continue; }
+        c.first = false;
         if (op[0] == 2 && op[2] == 1) {
             vh::alloc_mark m;
             suspend_point<void> sp = call_collector(c, op[1], op[3]);
@@ -253,6 +321,14 @@ static dco driver(Ctx<T> &c, const vh::Case &cs) {
         } else if (op[0] == 5) {
             vh::alloc_mark m;
             co_await cocls::pause();
+            emit_line(c, 0, 0, m);
+        } else if (op[0] == 8) {
+            vh::t_count = false;
+            suspend_point<void> sp(std::move(c.held.front()));
+            c.held.pop_front();
+            vh::t_count = true;
+            vh::alloc_mark m;
+            co_await sp;
             emit_line(c, 0, 0, m);
         } else {
             exec_plain(c, op);
@@ -280,12 +356,14 @@ static void run_case(const vh::Case &cs, bool coro) {
     } else {
         for (auto &op : cs.ops) {
             fresh_queue();
-            if (!valid(c, op)) { reject(c); continue; }
+            if (!valid(c, op)) { reject(c); c.first = false; continue; }
+            c.first = false;
             exec_plain(c, op);
         }
     }
     // teardown, not observed: disconnect whatever is left so that no frame is destroyed while subscribed
     vh::t_count = false;
+    c.held.clear();
     c.handles.clear();
     for (auto &l : c.listeners) l.h.destroy();
     c.log.ev.clear();
